@@ -1,6 +1,8 @@
 #!/bin/sh
 # Extra regression net for fix: commits: wpull's own tests under the compat layer,
 # pristine snapshot vs current tree; prints tests that pass on the snapshot and fail now.
+# The snapshot is a scratch worktree of the first commit (removed when the work ended):
+#   git -C /repo worktree add /dev/shm/wpull-orig 32de939   ...   git -C /repo worktree remove --force /dev/shm/wpull-orig
 ORIG=${1:-/dev/shm/wpull-orig}
 cd $ORIG && VERIF_REPO=$ORIG PYTHONPATH=/verif /venv/bin/python -m vt.pytest_compat --continue-on-collection-errors -q -rA 2>/dev/null | grep '^PASSED' | sort > /dev/shm/regress-orig.txt
 cd /repo && VERIF_REPO=/repo PYTHONPATH=/verif /venv/bin/python -m vt.pytest_compat --continue-on-collection-errors -q -rA 2>/dev/null | grep '^PASSED' | sort > /dev/shm/regress-now.txt
